@@ -185,8 +185,13 @@ impl<E> CQueue<E> {
                 if let Some(i) = self.zero_event_bucket.iter().position(|v| v.2 == handle.id) {
                     self.zero_event_bucket.remove(i);
                     self.len -= 1;
+                    return;
                 }
-            } else {
+            }
+
+            // Events that were scheduled before `t_current` reached their timestamp
+            // still reside in their indexed bucket, even if the times are now equal.
+            {
                 let time_mod = handle.time.as_nanos().rem(self.t_all);
 
                 let index = time_mod / self.t_nanos;
